@@ -40,6 +40,7 @@ Definition step_events (st : state) (o : op) : list event :=
   | OLine l now =>
       EvLine :: map EvRuntimeError (filter (fun p => raises st p l now) (map fst (st_progs st)))
   | OGc _ => []
+  | OMark _ _ _ _ => []
   end.
 
 Fixpoint events (st : state) (ops : list op) : list event :=
